@@ -11,4 +11,35 @@ def FirstAccepting (acc : Variant → Bool) (vs : List Variant) (i : Nat) : Prop
 def direct (v : Variant) (args : List Arg) (exp : Option Ty) : Option Outcome :=
   (attempt v args exp).1
 
+/-! ### An independent reading of "the signature accepts the arguments" for the scalar fragment
+
+Stated without reference to the checker model: scalar types, the widening relation of the language
+reference (nat → int → float, nothing else, never narrowing, bool and qubit only to themselves), and
+position-wise acceptance. -/
+
+inductive Scalar where
+  | nat | int | float | bool | qubit
+  deriving DecidableEq, Repr
+
+def Scalar.toTy : Scalar → Ty
+  | .nat => .nat | .int => .int | .float => .float | .bool => .bool | .qubit => .qubit
+
+/-- a value of type `a` may be passed where `p` is expected -/
+inductive Widens : Scalar → Scalar → Prop where
+  | refl (a) : Widens a a
+  | natInt : Widens .nat .int
+  | intFloat : Widens .int .float
+  | natFloat : Widens .nat .float
+
+/-- position by position, same length -/
+inductive AllWiden : List Scalar → List Scalar → Prop where
+  | nil : AllWiden [] []
+  | cons {a p as ps} : Widens a p → AllWiden as ps → AllWiden (a :: as) (p :: ps)
+
+/-- a variant `(ps) -> ret` accepts argument expressions of types `as` (and the expected result
+    type `exp`, when one is known): same number, each argument widens to its parameter, and the
+    result type is exactly the expected one -/
+def AcceptsScalar (ps : List Scalar) (ret : Scalar) (as : List Scalar) (exp : Option Scalar) : Prop :=
+  AllWiden as ps ∧ ∀ e, exp = some e → e = ret
+
 end GuppyVerif.Overload
